@@ -83,6 +83,7 @@ def run(ck, fb):
     r16i(ck, fb)
     r16j(ck, fb)
     r16k(ck, fb)
+    ck.borrow('rules.c17', {'R17n': 'R16l'}, 'an API token is a cache entry with a deadline: an expired token is no token only if the read checks the deadline itself')
     r16e(ck, fb)
 
 
